@@ -102,7 +102,9 @@ namespace vw
             for (std::size_t i = 0; i < n; ++i)
                 o.acc.push_back(dbits(acc.flat(i)));
         }
-        if (o.sane && with_basins && im.single_flow())
+        // basins are defined on single-direction *states*: either the table is single-column (snapshot graphs
+        // record this) or the operator sequence ends in a single-direction state (e.g. {multi, single})
+        if (o.sane && with_basins && (im.single_flow() || graph.single_flow()))
         {
             auto b = graph.basins();
             for (std::size_t i = 0; i < n; ++i)
@@ -356,7 +358,8 @@ namespace vw
             kernel.n_threads = n_threads;
             kernel.min_block_size = min_block;
             kernel.min_level_size = min_level;
-            kernel.apply_dir = dir == 0 ? fs::flow_graph_traversal_dir::any : fs::flow_graph_traversal_dir::breadth_upstream;
+            kernel.apply_dir = dir == 0 ? fs::flow_graph_traversal_dir::any
+                                        : (dir == 1 ? fs::flow_graph_traversal_dir::breadth_upstream : fs::flow_graph_traversal_dir::depth_upstream);
             kdata.data = &ctx;
         }
         void run(Graph& graph)
